@@ -13,6 +13,8 @@ import c07
 from c07 import fail, hexs, unhex
 
 SEP = "\x1f"
+SEP2 = "\x1e"
+DEFAULT_TMPL = (2000, 1, 1, 0)
 _BLOB2NAME = {"inv": ""}
 _NAME2BLOB = {"": "inv"}
 
@@ -34,7 +36,14 @@ def culture_blob(cname):
     fs += [fi.offset_pattern_long, fi.offset_pattern_medium, fi.offset_pattern_short, fi.offset_pattern_long_no_punctuation,
            fi.offset_pattern_medium_no_punctuation, fi.offset_pattern_short_no_punctuation]
     assert len(fs) == 87
-    if any(SEP in f for f in fs):
+    # LocalDateTime 'F' pattern; era names of the ISO calendar's eras (primary, all: longest first as the code sorts them)
+    P = c07._P()
+    eras = list(P.CalendarSystem.iso.eras())
+    assert [e.name for e in eras] == ["BCE", "CE"]
+    fs += [d.full_date_time_pattern or ""] + [fi.get_era_primary_name(e) or "" for e in eras]
+    fs += [SEP2.join(fi.get_era_names(e)) for e in eras]
+    assert len(fs) == 92
+    if any(SEP in f for f in fs) or any(SEP2 in f for f in fs[:90]) or any(n == "" for e in eras for n in fi.get_era_names(e)):
         blob = None
     else:
         try:
@@ -62,6 +71,36 @@ def describe(u):
     return "?" + n
 
 
+def split_type(tok):
+    """'datetime:2000,1,1,0' -> ('datetime', (2000, 1, 1, 0)); other types have no template"""
+    if tok.startswith("datetime"):
+        if ":" in tok:
+            return "datetime", tuple(int(x) for x in tok.split(":", 1)[1].split(","))
+        return "datetime", DEFAULT_TMPL
+    return tok, None
+
+
+_TPATS = {}
+
+
+def create_t(tok, text, cname, fresh=False):
+    """pattern creation through the public API for a type token (LocalDateTime: with the token's template value)"""
+    ty, tm = split_type(tok)
+    if ty != "datetime":
+        return c07._fresh(ty, text, cname, "ISO") if fresh else c07.create(ty, text, cname)
+    k = (tok, text, cname)
+    if not fresh and k in _TPATS:
+        return _TPATS[k]
+    P = c07._P()
+    T = c07._T()
+    tv = P.LocalDate(tm[0], tm[1], tm[2]).at(P.LocalTime.from_nanoseconds_since_midnight(tm[3]))
+    pat = T.LocalDateTimePattern.create(text, c07.culture(cname), tv)
+    if len(_TPATS) > 20000:
+        _TPATS.clear()
+    _TPATS[k] = pat
+    return pat
+
+
 def impl(t):
     op = t[0]
     if op.startswith("pcur."):
@@ -82,18 +121,22 @@ def impl(t):
             c.move_next()
             s = c.get_embedded_pattern()
             return f"ok {hexs(s)} {c.index}"
+    if op == "pat.calids":
+        return hexs(SEP.join(c07._P().CalendarSystem.ids))
     if op == "pat.compile":
-        ty, text, cname = t[1], unhex(t[2]), _BLOB2NAME[t[3]]
-        pat = c07._fresh(ty, text, cname, "ISO")
+        tok, text, cname = t[1], unhex(t[2]), _BLOB2NAME[t[3]]
+        pat = create_t(tok, text, cname, fresh=True)
         return "ok " + describe(pat._underlying_pattern)
     if op == "pat.fmt":
-        ty, text, cname = t[1], unhex(t[2]), _BLOB2NAME[t[3]]
-        pat = c07.create(ty, text, cname)
+        tok, text, cname = t[1], unhex(t[2]), _BLOB2NAME[t[3]]
+        ty = split_type(tok)[0]
+        pat = create_t(tok, text, cname)
         a = [int(x) for x in t[4:]]
         return hexs(pat.format(value_of(ty, a)))
     if op == "pat.parse":
-        ty, text, cname = t[1], unhex(t[2]), _BLOB2NAME[t[3]]
-        pat = c07.create(ty, text, cname)
+        tok, text, cname = t[1], unhex(t[2]), _BLOB2NAME[t[3]]
+        ty = split_type(tok)[0]
+        pat = create_t(tok, text, cname)
         r = pat.parse(unhex(t[4]))
         if not r.success:
             return "fail"
@@ -109,6 +152,8 @@ def value_of(ty, a):
         return P.LocalDate(a[0], a[1], a[2])
     if ty == "offset":
         return P.Offset.from_seconds(a[0])
+    if ty == "datetime":
+        return P.LocalDate(a[0], a[1], a[2]).at(P.LocalTime.from_nanoseconds_since_midnight(a[3]))
     raise ValueError(ty)
 
 
@@ -119,6 +164,10 @@ def fields_of(ty, x):
         return [x.year, x.month, x.day]
     if ty == "offset":
         return [x.seconds]
+    if ty == "datetime":
+        if x.calendar.id != "ISO":
+            return ["cal=" + x.calendar.id.replace(" ", "_"), x.year, x.month, x.day, x.nanosecond_of_day]
+        return [x.year, x.month, x.day, x.nanosecond_of_day]
     raise ValueError(ty)
 
 
@@ -127,27 +176,45 @@ def oracle(t):
     import c08
     op = t[0]
     if op == "pat.compile":
-        ty, text, cname = t[1], unhex(t[2]), _BLOB2NAME[t[3]]
-        return c08.oracle_create((ty, text, cname))
-    if op == "pat.parse":
-        ty, text, cname = t[1], unhex(t[2]), _BLOB2NAME[t[3]]
+        tok, text, cname = t[1], unhex(t[2]), _BLOB2NAME[t[3]]
+        ty, tm = split_type(tok)
+        f = c08.oracle_create((ty, text, cname))
+        if f or tm in (None, DEFAULT_TMPL):
+            return f
+        T = c07._T()
         try:
-            pat = c07.create(ty, text, cname)
+            create_t(tok, text, cname, fresh=True)
+        except T.InvalidPatternError:
+            return None
+        except Exception as e:  # noqa: BLE001
+            return fail("create-raises-" + type(e).__name__ + c08._where(e), f"LocalDateTimePattern.create({text!r}, culture {cname!r}, template {tm}) raised {type(e).__name__}: {str(e)[:120]}")
+        return None
+    if op == "pat.parse":
+        tok, text, cname = t[1], unhex(t[2]), _BLOB2NAME[t[3]]
+        ty = split_type(tok)[0]
+        try:
+            pat = create_t(tok, text, cname)
         except Exception:  # noqa: BLE001
             return None
-        return c08.parse_failure(ty, pat, unhex(t[4]), f"{c07.PCLS[ty]} {text!r} culture {cname!r}")
+        return c08.parse_failure(ty, pat, unhex(t[4]), f"{c07.PCLS[ty]} {text!r} culture {cname!r}" + (f" template {tok}" if ":" in tok else ""))
     if op == "pat.fmt":
-        ty, text, cname = t[1], unhex(t[2]), _BLOB2NAME[t[3]]
+        tok, text, cname = t[1], unhex(t[2]), _BLOB2NAME[t[3]]
+        ty = split_type(tok)[0]
         a = [int(x) for x in t[4:]]
         try:
-            pat = c07.create(ty, text, cname)
-            v = c07.unmk(ty if ty != "date" else "date", value_of(ty, a))
+            pat = create_t(tok, text, cname)
+            x = value_of(ty, a)
         except Exception:  # noqa: BLE001
             return None
-        info = c07.analyse(ty, c07.effective_text(ty, text, cname), cname)
-        if not info.ok or not info.delimited:
-            return None
-        return None
+        label = f"{c07.PCLS[ty]} {text!r} culture {cname!r}" + (f" template {tok}" if ":" in tok else "")
+        try:
+            s1 = pat.format(x)
+            s2 = pat.format(value_of(ty, a))
+        except Exception as e:  # noqa: BLE001
+            return fail("format-raises-" + type(e).__name__, f"{label}: format({a!r}) raised {type(e).__name__}: {e}")
+        if s1 != s2:
+            return fail("format-nondeterministic", f"{label}: format({a!r}) gave {s1!r} then {s2!r}")
+        return c08.parse_failure(ty, pat, s1, label)
     if op.startswith("pcur."):
         got = c07.guard(impl, t)
         if got.startswith("!") and got != "!invalidPattern":
@@ -159,7 +226,20 @@ def oracle(t):
 # generators
 # ---------------------------------------------------------------------------------------------------
 
-MODEL_TYPES = ["time", "date", "offset"]
+MODEL_TYPES = ["time", "date", "offset", "datetime"]
+
+
+def type_token(rng, ty):
+    """the op's type token: LocalDateTime patterns mostly with the default template, sometimes another ISO one"""
+    if ty != "datetime" or rng.random() < 0.7:
+        return ty
+    y = rng.choice([2000, 1999, 2024, 1, -5, 9999, -9998, 1950, 150, rng.randint(-9998, 9999)])
+    m = rng.randint(1, 12)
+    d = rng.choice([1, 28, 29, 30, 31, rng.randint(1, 28)])
+    dim = [31, 29 if (y % 4 == 0 and (y % 100 != 0 or y % 400 == 0)) else 28, 31, 30, 31, 30, 31, 31, 30, 31, 30, 31][m - 1]
+    d = min(d, dim)
+    nod = rng.choice([0, 0, c07.gen_nod(rng), 13 * c07.NPH + 30 * c07.NPM, 23 * c07.NPH + 59 * c07.NPM + 59 * c07.NPS + 999_999_999])
+    return f"datetime:{y},{m},{d},{nod}"
 CUR_POOL = list("abHm'\"\\<>%. Z0") + ["é", "\0", "日"]
 
 
@@ -190,7 +270,7 @@ def gen_compile_ops(ctx, n, cnames):
     """valid and malformed pattern texts of the three modelled types"""
     import c08
     rng = ctx.rng
-    ops = []
+    ops = ["pat.calids"]
     pool = list("HhmsfFtTuyMdcglZDS+-:/.;'\"\\%<> ,xQ0\0é") + ["''", "'x'", "\\\\"]
     texts = []
     for ty in MODEL_TYPES:
@@ -221,7 +301,7 @@ def gen_compile_ops(ctx, n, cnames):
         blob = culture_blob(cn)
         if blob is None:
             blob = "inv"
-        ops.append(f"pat.compile {ty} {h} {blob}")
+        ops.append(f"pat.compile {type_token(rng, ty)} {h} {blob}")
     # every standard letter in every sampled culture
     for cn in cnames:
         blob = culture_blob(cn)
@@ -233,6 +313,33 @@ def gen_compile_ops(ctx, n, cnames):
     return ops
 
 
+# LocalDateTime patterns that exercise the date/time combination rules (24:00, 12-hour fields with 24, template parts)
+DT_FIXED_PATTERNS = ["uuuu-MM-dd HH:mm", "uuuu-MM-dd HH:mm:ss", "HH uuuu/MM/dd", "uuuu-MM-dd HH", "dd/MM/yyyy HH:mm tt", "uuuu-MM-dd HH hh",
+                     "uuuu-MM-dd HH:mm:ss.FFF", "MM-dd HH:mm", "yyyy-MM-dd HH:mm gg", "yy-M-d H:m:s", "uuuu MMM dd HH:mm", "dddd dd MMMM uuuu HH:mm",
+                     "uuuu-MM-dd'T'HH:mm:ss;FFFFFFFFF", "HH:mm", "uuuu-MM-dd h:mm t", "uuuu-MM-dd hh tt HH"]
+
+
+def hour24_variants(rng, txt):
+    """texts with an hour field of 24 (and midnight / non-midnight remainders) spliced into a formatted value"""
+    out = []
+    runs = [(i, j) for (i, j) in __import__("c08").digit_runs(txt) if j - i <= 2]
+    for _ in range(2):
+        if not runs:
+            break
+        i, j = rng.choice(runs)
+        t = txt[:i] + "24" + txt[j:]
+        out.append(t)
+        # zero the other short runs so that 24:00 is actually reached sometimes
+        cs = list(t)
+        for (a, b) in runs:
+            if a > i and rng.random() < 0.8:
+                for k in range(a, b):
+                    if k + (2 - (j - i)) < len(cs) and cs[k + (2 - (j - i))].isdigit():
+                        cs[k + (2 - (j - i))] = "0"
+        out.append("".join(cs))
+    return out
+
+
 def gen_engine_ops(ctx, npat, cnames, hostile):
     """pat.fmt for arbitrary values and pat.parse for the produced texts (plus mutations when `hostile`)
     over generated and standard patterns of the modelled types"""
@@ -241,11 +348,12 @@ def gen_engine_ops(ctx, npat, cnames, hostile):
     fmt_ops, parse_ops = [], []
     pats = []
     for _ in range(npat):
-        ty = rng.choices(MODEL_TYPES, [5, 5, 2])[0]
+        ty = rng.choices(MODEL_TYPES, [4, 4, 2, 6])[0]
         pats.append((ty, c07.gen_custom(rng, ty)))
     for ty in MODEL_TYPES:
         for ch in c07.STANDARD[ty]:
             pats.extend([(ty, ch)] * 3)
+    pats.extend(("datetime", p) for p in DT_FIXED_PATTERNS)
     for ty, text in pats:
         try:
             h = hexs(text)
@@ -255,8 +363,9 @@ def gen_engine_ops(ctx, npat, cnames, hostile):
         blob = culture_blob(cn)
         if blob is None:
             cn, blob = "", "inv"
+        tok = type_token(rng, ty)
         try:
-            pat = c07.create(ty, text, cn)
+            pat = create_t(tok, text, cn)
         except Exception:  # noqa: BLE001 — creation is the compile suite's business
             continue
         info = c07.analyse(ty, c07.effective_text(ty, text, cn), cn)
@@ -266,8 +375,8 @@ def gen_engine_ops(ctx, npat, cnames, hostile):
                 v = c07.representable(rng, ty, info, pat, "ISO")
             if v is None:
                 v = c07.gen_value(rng, ty)
-            a = [v] if ty != "date" else list(v[1:])
-            fmt_ops.append(f"pat.fmt {ty} {h} {blob} " + " ".join(str(x) for x in a))
+            a = [v] if ty not in ("date", "datetime") else list(v[1:])
+            fmt_ops.append(f"pat.fmt {tok} {h} {blob} " + " ".join(str(x) for x in a))
             try:
                 txt = pat.format(c07.mk(ty, v))
             except Exception:  # noqa: BLE001
@@ -277,9 +386,11 @@ def gen_engine_ops(ctx, npat, cnames, hostile):
                 texts += [c08.mutate(rng, txt), c08.mutate(rng, txt)] + c08.out_of_range_variants(rng, txt, 2)
                 if rng.random() < 0.1:
                     texts += ["", txt + "\0", txt.swapcase()]
+            if ty == "datetime" and "H" in text:
+                texts += hour24_variants(rng, txt)
             for tx in texts:
                 try:
-                    parse_ops.append(f"pat.parse {ty} {h} {blob} {hexs(tx)}")
+                    parse_ops.append(f"pat.parse {tok} {h} {blob} {hexs(tx)}")
                 except UnicodeEncodeError:
                     pass
     return fmt_ops, parse_ops
@@ -303,10 +414,46 @@ def run_engine_correspondence(ctx, hostile):
             dl.append("pat.delim " + key)
     rep = c07.model_eval(dl, "drv_text")
     ctx.note("stepped_roundtrip:Delimited-holds", {"patterns": len(rep), "delimited": rep.count("1"), "not": rep.count("0"), "not-stepped": rep.count("-")})
+    # compileDate_wf / compileDateTime_wf say every accepted date-like pattern passes the decidable check; evaluated here as well
+    wl = ["pat.wf" + x[len("pat.delim"):] for x in dl if x.split(" ")[1].split(":")[0] in ("date", "datetime")]
+    wrep = c07.model_eval(wl, "drv_text")
+    if "0" in wrep:
+        raise c07.InfraError("pat.wf = 0 for an accepted pattern (contradicts compileDate_wf / compileDateTime_wf): " + wl[wrep.index("0")])
+    ctx.note("success_value_valid:dtWF-holds", {"patterns": len(wrep), "wf": wrep.count("1"), "dom": wrep.count("!dom")})
     for k in ("text.pat.fmt", "text.pat.parse"):
         st = ctx.suites.get(k)
         if st:
             ctx.note(k + ":outside-modelled-subset(!dom)", st["skipped_dom"])
+
+
+def culture_hypotheses(ctx, cnames):
+    """the decidable culture conditions the theorems assume (compile_total: dtTextsNoL; date/datetime_success_valid:
+    monthHeadsEmpty), evaluated by the model on the culture records of this run and, independently, on the code's
+    format info; cultures failing one are recorded in the notes (the theorem does not speak about them)"""
+    ops, names = [], []
+    for cn in cnames:
+        blob = culture_blob(cn)
+        if blob is None:
+            continue
+        ops.append(f"cu.check {blob}")
+        names.append(cn)
+    rep = c07.model_eval(ops, "drv_text")
+    failing = {"offsetTextsCustom": [], "dtTextsNoL": [], "monthHeadsEmpty": []}
+    for cn, r in zip(names, rep):
+        fi = c07.fmt_info(cn)
+        d = fi.date_time_format
+        own = [all(len(x) >= 2 for x in [fi.offset_pattern_long, fi.offset_pattern_medium, fi.offset_pattern_short, fi.offset_pattern_long_no_punctuation,
+                                         fi.offset_pattern_medium_no_punctuation, fi.offset_pattern_short_no_punctuation]),
+               all("l" not in (x or "") for x in [d.long_date_pattern, d.short_time_pattern, d.full_date_time_pattern, d.short_date_pattern, d.long_time_pattern]),
+               all((list(t) + [""])[0] in ("", None) for t in [fi.long_month_names, fi.short_month_names, fi.long_month_genitive_names, fi.short_month_genitive_names])]
+        got = [x == "1" for x in r.split(" ")]
+        if got != own:
+            raise c07.InfraError(f"cu.check for culture {cn!r}: model {got} / harness {own}")
+        for k, ok in zip(failing, got):
+            if not ok:
+                failing[k].append(cn)
+    ctx.note("culture-hypotheses:evaluated", len(names))
+    ctx.note("culture-hypotheses:failing", {k: v for k, v in failing.items()})
 
 
 def run_compile_correspondence(ctx):
@@ -322,5 +469,6 @@ def run_compile_correspondence(ctx):
             return None
         return fail("culture-offset-pattern-not-custom", f"culture {cn!r}: an offset pattern text has fewer than two characters: {ts!r}")
     ctx.check_cases("hypothesis.offsetTextsCustom", cnames, offset_texts_custom, exhaustive=ctx.thorough)
+    culture_hypotheses(ctx, cnames)
     ctx.correspond("text.pcur", gen_cursor_ops(ctx, ctx.scale(1500, 100_000)), impl, oracle=oracle, driver="drv_text")
     ctx.correspond("text.pat.compile", gen_compile_ops(ctx, ctx.scale(5000, 300_000), cnames), impl, oracle=oracle, driver="drv_text")
